@@ -25,6 +25,8 @@ type Config struct {
 	NoFeatures   bool
 	NoMaps       bool
 	NoImports    bool
+	CustomOpts   bool // place generated custom options (schema o/opts.proto) on elements
+	CustomOptPct int  // probability per element (default 35)
 	// SinglePackage forces every file into one package.
 	SinglePackage bool
 	// Relative, if set, is asked for the source spelling of each reference
@@ -57,6 +59,7 @@ type builder struct {
 	extNext  map[string]int
 	extSeq   int
 	ctx      map[string]*fileCtx
+	usesOpts map[string]bool
 }
 
 func (b *builder) pct(n int, label string) bool { return Pct(b.t, n, label) }
@@ -80,7 +83,7 @@ func GenWorkspace(t *rapid.T, cfg Config) *Workspace {
 		cfg.Syntaxes = []string{Proto2, Proto3, Ed2023}
 	}
 	b := &builder{t: t, cfg: cfg, ws: &Workspace{}, pkgNames: map[string]map[string]bool{}, types: map[string]*typeInfo{},
-		extNext: map[string]int{}, ctx: map[string]*fileCtx{}}
+		extNext: map[string]int{}, ctx: map[string]*fileCtx{}, usesOpts: map[string]bool{}}
 	if cfg.MinFiles == 0 {
 		cfg.MinFiles = 1
 	}
@@ -89,6 +92,9 @@ func GenWorkspace(t *rapid.T, cfg Config) *Workspace {
 	}
 	if cfg.PublicPct == 0 {
 		cfg.PublicPct = 25
+	}
+	if cfg.CustomOptPct == 0 {
+		cfg.CustomOptPct = 35
 	}
 	b.cfg = cfg
 	n := rapid.IntRange(cfg.MinFiles, cfg.MaxFiles).Draw(t, "nfiles")
@@ -155,6 +161,7 @@ func (b *builder) file(i int, pkg0 string) {
 	if !b.cfg.NoOptions {
 		b.fileOptions(f, ctx)
 	}
+	f.Options = append(f.Options, b.addCustom(f, "file", "")...)
 	// skeleton: names first so that fields can refer forward
 	nm := rapid.IntRange(0, 3).Draw(t, "nmsg")
 	for k := 0; k < nm; k++ {
@@ -194,6 +201,13 @@ func (b *builder) file(i int, pkg0 string) {
 				f.Services = append(f.Services, s)
 			}
 		}
+	}
+	if b.usesOpts[f.Name] {
+		f.Imports = append(f.Imports, Import{Path: OptsPath})
+		if b.ws.Extra == nil {
+			b.ws.Extra = map[string]string{}
+		}
+		b.ws.Extra[OptsPath] = OptsProto
 	}
 }
 
@@ -262,8 +276,10 @@ func (b *builder) enum(f *File, scope, name string) *Enum {
 		if !b.cfg.NoOptions && b.pct(10, "evdep") {
 			v.Options = append(v.Options, Opt{Name: "deprecated", Value: "true", Set: setOpt(func(o *descriptorpb.EnumValueOptions) { o.Deprecated = proto.Bool(true) })})
 		}
+		v.Options = append(v.Options, b.addCustom(f, "enum_value", qual(scope, v.Name))...)
 		e.Values = append(e.Values, v)
 	}
+	e.Options = append(e.Options, b.addCustom(f, "enum", e.FQN)...)
 	if !b.cfg.NoOptions && len(e.Values) >= 2 && b.pct(15, "alias") {
 		// alias of the last value
 		last := e.Values[len(e.Values)-1]
@@ -424,10 +440,17 @@ func (b *builder) fields(f *File, m *Message) {
 		} else if len(m.Oneofs) < 2 && k < nf-1 && b.pct(18, "startoneof") {
 			m.Oneofs = append(m.Oneofs, fmt.Sprintf("o%d", len(m.Oneofs)+1))
 			inOneof = len(m.Oneofs) - 1
+			if oo := b.addCustom(f, "oneof", m.FQN+"."+m.Oneofs[inOneof]); len(oo) > 0 {
+				if m.OneofOpts == nil {
+					m.OneofOpts = map[int][]Opt{}
+				}
+				m.OneofOpts[inOneof] = oo
+			}
 			fl.Oneof = inOneof
 			oneofLeft = rapid.IntRange(0, 2).Draw(t, "oneoflen")
 		}
 		b.fieldType(f, m, fl, ctx, false)
+		fl.Options = append(fl.Options, b.addCustom(f, "field", m.FQN+"."+fl.Name)...)
 		m.Fields = append(m.Fields, fl)
 	}
 	// extension ranges / reserved (after the fields: numbers above everything used)
@@ -441,6 +464,7 @@ func (b *builder) fields(f *File, m *Message) {
 			m.ExtRanges = append(m.ExtRanges, Range{lo + 1000, MaxField})
 		}
 		b.extNext[m.FQN] = lo
+		m.ExtRangeOpts = b.addCustom(f, "ext_range", m.FQN)
 	}
 	if b.pct(20, "mres") {
 		lo := num + 20
@@ -452,6 +476,7 @@ func (b *builder) fields(f *File, m *Message) {
 	if !b.cfg.NoOptions && b.pct(10, "mdep") {
 		m.Options = append(m.Options, Opt{Name: "deprecated", Value: "true", Set: setOpt(func(o *descriptorpb.MessageOptions) { o.Deprecated = proto.Bool(true) })})
 	}
+	m.Options = append(m.Options, b.addCustom(f, "message", m.FQN)...)
 }
 
 // fieldType chooses label, type, default and options for a (possibly extension) field.
@@ -680,6 +705,7 @@ func (b *builder) extend(f *File, scope string) *Extend {
 			b.fieldType(f, nil, fl, ctx, true)
 		}
 		b.cfg.NoGroups = saveGroups
+		fl.Options = append(fl.Options, b.addCustom(f, "field", qual(scope, fl.Name))...)
 		e.Fields = append(e.Fields, fl)
 	}
 	return e
@@ -700,8 +726,10 @@ func (b *builder) service(f *File, name string) *Service {
 		if !b.cfg.NoOptions && b.pct(15, "idem") {
 			m.Options = append(m.Options, Opt{Name: "idempotency_level", Value: "IDEMPOTENT", Set: setOpt(func(o *descriptorpb.MethodOptions) { o.IdempotencyLevel = descriptorpb.MethodOptions_IDEMPOTENT.Enum() })})
 		}
+		m.Options = append(m.Options, b.addCustom(f, "method", s.FQN+"."+m.Name)...)
 		s.Methods = append(s.Methods, m)
 	}
+	s.Options = append(s.Options, b.addCustom(f, "service", s.FQN)...)
 	if !b.cfg.NoOptions && b.pct(10, "sdep") {
 		s.Options = append(s.Options, Opt{Name: "deprecated", Value: "true", Set: setOpt(func(o *descriptorpb.ServiceOptions) { o.Deprecated = proto.Bool(true) })})
 	}
